@@ -7,15 +7,22 @@
 //
 // ops:  t+ <ns>                                                     => <state>            (one breaker)
 //                                                                   => <name> <state> | …  (named breakers)
-//       site <site> <class> p=<0|1> sf=<0|1> ua=<n> ig=<0|1> ctx=<none|live|done> u=<m> [name=<x>]
+//       site <site> <class> p=<0|1|2|3> sf=<0|1> ua=<n> ig=<0|1> ctx=<none|live|deadline|cancelmid|done|expired> u=<m> [name=<x>]
+//            (p: the wrapped request 0 returns, 1 panics with a string value, 2 panics with an error value
+//             (http.ErrAbortHandler), 3 calls runtime.Goexit; ctx: live = Background, deadline = a deadline far in the
+//             future, cancelmid = the request itself cancels the context while it runs, done = cancelled before the call,
+//             expired = a deadline in the past)
 //            (sf / ig are per-site flags: sqlx sf=1 the error comes from the row scanner resp. the tx function, ig=1 it is
 //             injected in the driver instead of the connection provider; redis ig=1 blpop, sf=1 mixed pipeline results)
-//            => req=<n> ret=<same|unavail|stunavail|http503|ctx|other|none> panic=<0|1|other> drew=<n> <state> [oth=<Σsum of the other names>]
+//            => req=<n> ret=<same|unavail|stunavail|http503|ctx|other|none> panic=<0|1|err|exit|other> drew=<n> <state> [oth=<Σsum of the other names>]
+//            (panic=1 / err: the very value the request panicked with came out of the site; exit: the goroutine ended by Goexit)
 package verifc01
 
 import (
 	"context"
 	"fmt"
+	"net/http"
+	"runtime"
 	"strconv"
 	"strings"
 	"testing"
@@ -39,11 +46,16 @@ const (
 	SkipPrefix = "verif c01 skip:"
 )
 
+// PanicErr is the error value a request panics with when the op says p=2 (what net/http handlers abort with).
+var PanicErr error = http.ErrAbortHandler
+
 // Call is one parsed `site` op.
 type Call struct {
 	Site     string
 	Class    string
-	Panics   bool
+	Panics   bool // PanicKind != 0: the request does not return
+	// PanicKind: 0 returns, 1 panic(string), 2 panic(error value), 3 runtime.Goexit
+	PanicKind int
 	ScanFail bool
 	UserAcc  int
 	Ignored  bool
@@ -72,7 +84,11 @@ func ParseCall(op []string) Call {
 	if len(op) < 9 {
 		panic("verif c01: short site op")
 	}
-	c := Call{Site: op[1], Class: op[2], Panics: kv(op[3], "p") == "1", ScanFail: kv(op[4], "sf") == "1",
+	pk, perr := strconv.Atoi(kv(op[3], "p"))
+	if perr != nil || pk < 0 || pk > 3 {
+		panic("verif c01: bad p")
+	}
+	c := Call{Site: op[1], Class: op[2], Panics: pk != 0, PanicKind: pk, ScanFail: kv(op[4], "sf") == "1",
 		Ignored: kv(op[6], "ig") == "1", Ctx: kv(op[7], "ctx")}
 	m, err := strconv.ParseInt(kv(op[8], "u"), 10, 64)
 	if err != nil {
@@ -90,14 +106,34 @@ func ParseCall(op []string) Call {
 	return c
 }
 
-func MakeCtx(kind string) context.Context {
+// Unwind leaves the wrapped request the way the op says (call it where the request would return).
+func (c Call) Unwind() {
+	switch c.PanicKind {
+	case 1:
+		panic(PanicValue)
+	case 2:
+		panic(PanicErr)
+	case 3:
+		runtime.Goexit()
+	}
+}
+
+// MakeCtx builds the context of an op; the cancel function must be called when the op is over.
+// No verdict depends on the wall clock: the deadlines are an hour away from now.
+func MakeCtx(kind string) (context.Context, context.CancelFunc) {
 	switch kind {
 	case "none", "live":
-		return context.Background()
+		return context.Background(), func() {}
+	case "deadline":
+		return context.WithDeadline(context.Background(), time.Now().Add(time.Hour))
+	case "cancelmid":
+		return context.WithCancel(context.Background())
 	case "done":
 		ctx, cancel := context.WithCancel(context.Background())
 		cancel()
-		return ctx
+		return ctx, cancel
+	case "expired":
+		return context.WithDeadline(context.Background(), time.Now().Add(-time.Hour))
 	}
 	panic("verif c01: bad ctx " + kind)
 }
@@ -161,21 +197,42 @@ func Run(t *testing.T, gen func(r *verifh.Rng) []verifh.Section, newEnv func(nam
 				skipped := false
 				panicked := "0"
 				ret := "none"
-				func() {
+				ctx, cancel := MakeCtx(c.Ctx)
+				// the request runs in a goroutine of its own so that runtime.Goexit (p=3) can be told apart from a
+				// return and from a panic: the goroutine ends without having completed and without a panic value
+				completed := false
+				done := make(chan struct{})
+				go func() {
+					defer close(done)
 					defer func() {
 						if p := recover(); p != nil {
 							if s, ok := p.(string); ok && s == PanicValue {
 								panicked = "1"
 							} else if ok && strings.HasPrefix(s, SkipPrefix) {
 								skipped = true
+							} else if e, ok := p.(error); ok && e == PanicErr {
+								panicked = "err"
 							} else {
 								panicked = "other"
 							}
 							ret = "none"
+							completed = true
 						}
 					}()
-					ret = env.Invoke(c, MakeCtx(c.Ctx), func() { reqRuns++ })
+					r := env.Invoke(c, ctx, func() {
+						reqRuns++
+						if c.Ctx == "cancelmid" {
+							cancel()
+						}
+					})
+					ret = r
+					completed = true
 				}()
+				<-done
+				cancel()
+				if !completed {
+					panicked, ret = "exit", "none"
+				}
 				if skipped {
 					// the op cannot be executed in this (shrunk) context: an unparsable observation = a mismatch,
 					// never a verdict of the monitor
@@ -211,6 +268,10 @@ type SiteSpec struct {
 	Flags   func(r *verifh.Rng, c *Call)
 	NoCtx   bool // the site has no context parameter
 	NoPanic bool
+	// NoGoexit: never let the wrapped request call runtime.Goexit (database/sql keeps locks across driver calls)
+	NoGoexit bool
+	// NoCancelMid: never cancel the context from inside the request (database/sql reacts to it on its own)
+	NoCancelMid bool
 	// Names, if set, are the breaker names (instances) of a named section instead of a, b, c.
 	Names []string
 	// Fix, if set, is applied after the name has been chosen (flags that depend on the instance).
@@ -268,9 +329,18 @@ func (g *gen) call(sp SiteSpec, class string, u int64) {
 	if sp.NoCtx {
 		c.Ctx = "none"
 	} else if r.Chance(1, 14) {
-		c.Ctx = "done"
+		c.Ctx = []string{"done", "done", "expired"}[r.Intn(3)]
+	} else if r.Chance(1, 6) {
+		c.Ctx = "deadline"
+		if !sp.NoCancelMid && r.Chance(1, 2) {
+			c.Ctx = "cancelmid"
+		}
 	}
-	if !sp.NoPanic && r.Chance(1, 12) {
+	if !sp.NoPanic && r.Chance(1, 10) {
+		c.PanicKind = 1 + r.Intn(3)
+		if c.PanicKind == 3 && sp.NoGoexit {
+			c.PanicKind = 1 + r.Intn(2)
+		}
 		c.Panics = true
 	}
 	if sp.Flags != nil {
@@ -285,13 +355,19 @@ func (g *gen) call(sp SiteSpec, class string, u int64) {
 	if sp.Fix != nil {
 		sp.Fix(r, &c)
 	}
-	op := fmt.Sprintf("site %s %s p=%s sf=%s ua=%d ig=%s ctx=%s u=%d", c.Site, c.Class, b01(c.Panics), b01(c.ScanFail),
+	if c.Panics && c.PanicKind == 0 {
+		c.PanicKind = 1
+	}
+	if !c.Panics {
+		c.PanicKind = 0
+	}
+	op := fmt.Sprintf("site %s %s p=%d sf=%s ua=%d ig=%s ctx=%s u=%d", c.Site, c.Class, c.PanicKind, b01(c.ScanFail),
 		c.UserAcc, b01(c.Ignored), c.Ctx, c.U)
 	if c.Name != "" {
 		op += " name=" + c.Name
 	}
 	g.ops = append(g.ops, op)
-	if c.Ctx != "done" {
+	if c.Ctx != "done" && c.Ctx != "expired" {
 		g.calls++
 	}
 }
